@@ -92,3 +92,26 @@ P('C06', 'other',
   'adjusted open = adj close/close*open; S6 accessors are pure, read only the frames built once in the constructor, the class keeps identity '
   'equality (lru_cache key), the handler returns the source value unmodified at its own dt. Not decided: pandas internals.')
 TECHNIQUE['C06'] = 'static analysis: API-argument and pipeline-shape rules on symbolic method chains, sentinel-guard path rule, constant tables, effect/ownership scans'
+
+P('C07', 'other',
+  'Non-interference argument over the package, decided statically: absence of any code path that can carry later market data into an '
+  'earlier decision. S1 from BacktestTradingSession.run (resolved call graph incl. implicit __iter__), the only readers of the bid/ask frames '
+  'reached are get_bid/get_ask, no reader of the raw bar frames or of a historical range is reachable, and market data enters only through '
+  'the latest-price getters. S2 temporal passthrough: every call site in the cone that binds a time parameter passes the caller\'s own time '
+  'parameter unmodified, the broker clock, the Transaction stamp or the event time (each site classified; dt+delta, end_dt or a constant is '
+  'a violation). S3 the C06 point-in-time rules (pad lookup, sentinel, forward fill in time order), no backward fill/nearest/negative shift '
+  'anywhere in the cone of run/get_equity_curve/get_target_allocations/data loading, no end-relative access in the data source, the exchange '
+  'is closed at its own closing instant, signals are fed only at closes with the price at dt. Not decided: user-supplied alpha models, '
+  'pandas internals, the bit-for-bit two-run formulation itself.')
+TECHNIQUE['C07'] = 'static analysis: call-graph reachability of data readers + temporal-passthrough value-flow over all time-carrying call sites + backward-operation scan'
+P('C16', 'other',
+  'Static rules. S1 cadence: the body of run\'s event loop is evaluated as a complete decision table (signals configured x event type x '
+  'burn-in ordering x schedule membership x print flag): signals.update(dt) exactly once iff signals and market_close; inside the collection every '
+  'signal refreshes its universe before any append and every tracked asset of every signal gets exactly one append of the mid price at dt, '
+  'forwarded once to every lookback buffer. S2 writer/reader key agreement: buffers keyed <asset>_<lookback> with a fresh deque(maxlen=lookback) '
+  'per key; for each Signal subclass the constructor\'s window bump equals the reader\'s key offset, +1 for return-based signals, 0 for the '
+  'average. S3 parameter slots of the recognised pipelines (population std x sqrt(252), warm-up guard -> 0, compounded returns - 1, mean of '
+  'available prices); an unrecognised pipeline is undecided, a deviating slot is a violation. S4 new members are chosen per asset (set '
+  'difference), their buffers are created empty on first observation, nothing in signals/ reaches a historical range. Not decided: numerical '
+  'equality of the pandas/numpy pipelines with the definitions.')
+TECHNIQUE['C16'] = 'static analysis: exhaustive decision table of the event loop, writer/reader key-offset agreement, formula-slot matching on symbolic terms'
